@@ -186,6 +186,13 @@ func (c *tc) consume(ctx context.Context, pl kit.Payload) (err error) {
 		c.wg.Add(1)
 		go func() {
 			defer c.wg.Done()
+			defer func() { // reading a payload that a sibling mutates concurrently can panic inside the marshaler
+				if r := recover(); r != nil {
+					c.mu.Lock()
+					c.asyncPanic = fmt.Sprint(r)
+					c.mu.Unlock()
+				}
+			}()
 			for i := 0; i < 3; i++ {
 				_ = pl.Marshal()
 				runtime.Gosched()
@@ -453,7 +460,9 @@ func l1(c *driver.Ctx, sig kit.Signal, n, mask, failMask int, ro bool, cm ctxMod
 		if !bytes.Equal(x.atCall, sent) {
 			vio("content-at-call", fmt.Sprintf("consumer %d (mutates=%v) received content different from what was sent (markers seen: %v)", x.idx, x.mutates, kit.MarkersIn(x.atCall)), "consumer", role(x))
 		}
-		if x.asyncPanic != "" {
+		if x.asyncPanic != "" && !x.mutates {
+			vio("reader-observes-change", fmt.Sprintf("non-mutating consumer %d crashed while re-reading its payload after returning (it is being changed concurrently): %s", x.idx, x.asyncPanic), "consumer", role(x), "problem", "read-panic")
+		} else if x.asyncPanic != "" {
 			vio("mutator-on-readonly", fmt.Sprintf("declared mutating consumer %d could not mutate the data it was given: %s", x.idx, x.asyncPanic), "consumer", role(x))
 		}
 		atEnd := x.pl.Marshal()
@@ -554,6 +563,7 @@ func runL1(c *driver.Ctx) {
 		rounds = int64(c.N(1, 5))
 	}
 	g := int64(0)
+	halve := c.Variant == "race" && !c.Thorough()
 	for round := int64(0); round < rounds; round++ {
 		for _, sig := range kit.Signals {
 			for n := 1; n <= 5; n++ {
@@ -562,6 +572,9 @@ func runL1(c *driver.Ctx) {
 						for _, ro := range []bool{false, true} {
 							for _, cm := range ctxModes(n) {
 								g++
+								if halve && (g/int64(c.NShards))%2 == 1 && c.Only < 0 {
+									continue // quick tier, race variant: every second case of the shard (budget)
+								}
 								if !c.Mine(g) {
 									continue
 								}
@@ -757,6 +770,7 @@ func l2(c *driver.Ctx, rng *rand.Rand) {
 		c.Note("stuck L2 case frames=%v", stuck.RepoFrames)
 		return
 	case pv != nil:
+		pv, pstack = kit.UnwrapPanic(pv, pstack)
 		w.Detail = fmt.Sprintf("panic: %v\n%s", pv, pstack)
 		what := "panic"
 		if strings.Contains(fmt.Sprint(pv), "invalid access to shared data") {
@@ -1006,8 +1020,8 @@ func main() {
 	driver.Main(driver.Spec{
 		ID:    "C06",
 		Level: "exploration",
-		Rule: "L1: a case is (signal, capability vector of 1–5 consumers, failing subset, read-only flag, context scenario: live | already cancelled | deadline already expired | cancelled synchronously from inside the consumer invoked first / in the middle / last-but-one | deadline that expires while that consumer is running, i.e. it waits on ctx.Done() and then fails) — all 96 544 combinations are enumerated completely per payload round, each with a generated payload and a random sync/async assignment; consumers never refuse because of the context; non-trivial = at least 2 consumers; distinct = (signal, n, vector, read-only, failing subset, context scenario). " +
-			"L2: a case is one seeded random service configuration (1–4 pipelines, processors declaring or not declaring mutation, exporters mutating sync/async or re-reading async, same-signal connectors in mutate/pass mode) with one generated payload injected at every receiver instance; non-trivial = some receiver, connector or pipeline fans out to at least 2 consumers; distinct = canonical configuration",
+		Rule: "L1: a case is (signal, capability vector of 1–5 consumers, failing subset, read-only flag, context scenario: live | already cancelled | deadline already expired | cancelled synchronously from inside the consumer invoked first / in the middle / last-but-one | deadline that expires while that consumer is running, i.e. it waits on ctx.Done() and then fails) — all 96 544 combinations are enumerated completely per payload round (quick tier: completely by the plain variant, every second one by the race variant), each with a generated payload (40 % with items, else completely empty / resource-only / scope-only / metric-without-data-points resp. profile-without-samples) and a random sync/async assignment; the same oracle runs with a connector router (connector.NewLogsRouter … public API) in front: default consumer and every route of one and of two ids × all vectors × read-only flag × {no failure, a seeded failing subset}; consumers never refuse because of the context; non-trivial = at least 2 consumers; distinct = (signal, n, vector, read-only, failing subset, context scenario). " +
+			"L2: a case is one seeded random service configuration (1–4 pipelines, processors declaring or not declaring mutation, exporters mutating sync/async or re-reading async, same-signal connectors in mutate/pass mode; a third of the cases with a routing connector that marks its outgoing payload read-only and sends it to Consumer(oneID), Consumer(id1,id2) and the default consumer in turn) with one generated payload (half of them item-less) injected at every receiver instance; non-trivial = some receiver, connector or pipeline fans out to at least 2 consumers; distinct = canonical configuration",
 		Assumptions: []string{
 			"context scenarios are positioned by invocation ordinal (the k-th consumer the fan-out invokes), so they do not assume a serving order; the deadline of a deadline-in case lies 300 µs ahead when the fan-out is called and the consumer at ordinal k blocks on ctx.Done(): no verdict depends on that duration. L2 injects with a live, cancelled or expired context (kit components accept data regardless)",
 			"content equality is equality of the OTLP protobuf bytes; a mutation is the kit's unique marker mutation (attribute on resource and scope, changed leaf, appended leaf item)",
